@@ -8,11 +8,11 @@ export GOFLAGS=-mod=mod GOPROXY=off GOSUMDB=off GOTOOLCHAIN=local
 wt=$(mktemp -d /tmp/confirm-$id-XXXX); rmdir "$wt"
 git -C /repo worktree add -q --detach "$wt" HEAD || exit 2
 trap 'git -C /repo worktree remove --force "$wt" 2>/dev/null; git -C /repo worktree prune' EXIT
-cp /tmp/seed/$id.demo_test.go "$wt/seeded_demo_test.go"
+cp ${SEED_DIR:-/tmp/seed}/$id.demo_test.go "$wt/seeded_demo_test.go"
 flags=(-vet=off -count=1 -run 'TestSeededDemo' .)
 [ -n "$race" ] && flags=(-race "${flags[@]}")
 (cd "$wt" && go test "${flags[@]}" > /tmp/confirm-$id.clean.log 2>&1); clean=$?
-git -C "$wt" apply /tmp/seed/$id.patch.diff || { echo "CONFIRM $id: patch does not apply"; exit 1; }
+git -C "$wt" apply ${SEED_DIR:-/tmp/seed}/$id.patch.diff || { echo "CONFIRM $id: patch does not apply"; exit 1; }
 (cd "$wt" && go test "${flags[@]}" > /tmp/confirm-$id.patched.log 2>&1); patched=$?
 rm "$wt/seeded_demo_test.go"
 for try in 1 2 3 4 5 6 7 8 9 10 11 12; do
